@@ -13,10 +13,13 @@
                         OID overwrites the hash, the cursor is malformed and the next request is rejected.
      BugAssocMerge      "__NEOFS__ASSOCIATE": MergeSearchResults compares the Base58 strings (not the decoded
                         IDs) and CalculateCursor puts the Base58 string into the key: order, duplicates and
-                        omissions of the merged result are unspecified (havoc in the as-is model).           *)
+                        omissions of the merged result are unspecified (havoc in the as-is model).
+     BugAssocAbsent     (introduced by the repair of the previous one) primary filter "__NEOFS__ASSOCIATE NOT_PRESENT"
+                        with attributes requested: the first attribute of every item is empty, MergeSearchResults
+                        tries to Base58-decode it and the merged search fails (havoc in the as-is model).      *)
 EXTENDS Search
 
-CONSTANTS BugCursorChecksum, BugAssocMerge
+CONSTANTS BugCursorChecksum, BugAssocMerge, BugAssocAbsent
 
 ChecksumAttr == "$Object:payloadHash"
 AssocAttr == "__NEOFS__ASSOCIATE"
@@ -133,4 +136,5 @@ MergedPages(C, NS, q, n, mode) ==
 
 AssocClass(q) == ~OidSorted(q) /\ q.fs[1].k = AssocAttr
 ChecksumClass(q) == ~OidSorted(q) /\ q.fs[1].k = ChecksumAttr
+AssocAbsentClass(q) == Len(q.attrs) > 0 /\ Len(q.fs) > 0 /\ q.fs[1].k = AssocAttr /\ EffOp(q.fs[1]) = "NOT_PRESENT"
 =============================================================================
